@@ -63,7 +63,7 @@ void run_cpp(const Scenario& s, Observed& ob) {
 
 const char* ordinal(int n) { static const char* o[] = {"0th", "1st", "2nd", "3rd", "4th", "5th", "6th", "7th"}; return o[n < 8 ? n : 7]; }
 
-void check(const Scenario& s) {
+void check(const Scenario& s, const Alphabet& A) {
     vf::ctx("scenario");
     Observed ob; run_cpp(s, ob);
     vf::count("executed");
@@ -72,7 +72,19 @@ void check(const Scenario& s) {
     auto d = [&]() { if (desc.empty()) desc = render(s); return desc; };
     // safety / at-most-once: for every scenario, ambiguous or not
     if (ob.failures > 1) vf::fail("verdict/failed-more-than-once", d() + vf::fmt(": %zu failures recorded", ob.failures));
-    if (!unamb) { vf::count("ambiguous"); vf::outcome(vf::fmt("ambiguous/%s", diag_name(ob.diag))); return; }
+    if (!unamb) {
+        // outside the narrow class the step-by-step reference (diagnosis, abort point, values) is not trusted; where no
+        // call can completely match two different expectations the property's multiset statement still decides the verdict
+        if (!s.scoped && wide_unambiguous(s, A)) {
+            bool want_pass = multiset_verdict_pass(s);
+            vf::count("wide_class");
+            if (want_pass != (ob.failures == 0))
+                vf::fail(vf::fmt("verdict-wide/expected=%s/observed=%s", want_pass ? "PASS" : "FAIL", ob.failures ? diag_name(ob.diag) : "PASS"), d() + ": the multiset of actual calls " + (want_pass ? "equals" : "differs from") + " the multiset of expected calls; framework: " + (ob.failures ? ob.text.substr(0, 250) : std::string("test passed")));
+            vf::outcome(vf::fmt("wide/%s", want_pass ? "PASS" : "FAIL"));
+            return;
+        }
+        vf::count("ambiguous"); vf::outcome(vf::fmt("ambiguous/%s", diag_name(ob.diag))); return;
+    }
     Expected ex = reference(s);
     if (ex.diag != PASS) vf::count("nontrivial");
     vf::outcome(vf::fmt("%s%s%s", diag_name(ex.diag), s.strict ? "/strict" : "", s.ignoreOtherCalls ? "/ioc" : ""));
@@ -129,7 +141,7 @@ void run_sweep(const Sweep& sw) {
         for (int i : te) s.exps.push_back(A.eo[i]);
         for (int i : ta) s.acts.push_back(A.ao[i]);
         if (!canonical(s)) { vf::count("skipped_symmetric"); return; }
-        check(s);
+        check(s, A);
     });
     vf::require_outcomes(sw.name, sw.scoped ? 6 : 12);
 }
